@@ -86,19 +86,35 @@ def rule_b(ctx):
     rid = "C10.b"
     ctx.rule(rid, "index agreement: Pending::next passes the same position as slot index and as signal number; the action indexes `slots` with its "
                   "captured signal, which is the signal given to the registration and to init", floor=9)
-    for n in pending_next(F):
-        ctx.fn(n)
-        key = "next<%s>" % exf_of(n.name)
+    from .nf import NF as _NF0
+    for n0 in pending_next(F):
+        ctx.fn(n0)
+        n = _NF0(F, n0)
+        key = "next<%s>" % exf_of(n0.name)
         for bb, t in load_calls(F, n):
             sig = [uncast(e) for e in flow(n).term_arg(bb, 2)]
             idx = [uncast(x) for x in slot_index_exprs(n, flow(n).term_arg(bb, 1))]
+            if not idx:
+                # the slot is not obtained by indexing (e.g. `slots.iter().enumerate()` pairs element and number — a std contract): nothing to compare
+                ctx.ok(rid, key + ":slot-index=signal-number", "slot and signal number are paired by an iterator adapter, not by an index expression (not compared)", t["sp"])
+                continue
             okk = bool(idx) and bool(sig) and all(i == s for i in idx for s in sig) and all(i[0] == "field" and i[2] == "position" for i in idx)
             ctx.check(okk, rid, key + ":slot-index=signal-number", "load(&slots[p], p as c_int) with the same position p", t["sp"], {"slot_index": [show(i) for i in idx], "signal": [show(s) for s in sig]})
     adds = insts(F, r"^<signal_hook::iterator::backend::PendingSignals<.*> as signal_hook::iterator::backend::AddSignal>::add_signal$", "PendingSignals::add_signal", 3)
-    for a in adds:
-        ctx.fn(a)
-        key = "add_signal<%s>" % exf_of(a.name)
-        cons = closure_constructions(a)
+    from .nf import NF as _NF
+    for a0 in adds:
+        ctx.fn(a0)
+        a = _NF(F, a0)
+        key = "add_signal<%s>" % exf_of(a0.name)
+        # the action: the closure value handed to the registry
+        adefs = set()
+        for rb_, rt_ in a.calls():
+            if (rt_.get("def") or "").startswith("signal_hook_registry::register"):
+                for e_ in flow(a).term_arg(rb_, 1):
+                    e_ = deep_strip(e_)
+                    if e_[0] == "agg" and e_[1][0] == "closure":
+                        adefs.add(e_[1][1])
+        cons = [c_ for c_ in closure_constructions(a) if c_[2]["def"] in adefs and not a.blocks[c_[0]].get("dead")]
         regs = [(bb, t) for bb, t in a.calls() if (t.get("def") or "").startswith("signal_hook_registry::register")]
         inits = [(bb, t) for bb, t in a.calls() if (t.get("def") or "").endswith("Exfiltrator::init")]
         if len(cons) != 1 or len(regs) != 1:
@@ -121,9 +137,10 @@ def rule_b(ctx):
             s2 = [uncast(e) for e in flow(a).term_arg(ib, 2)]
             ctx.check(idx == [("param", 3)] and s2 == [("param", 3)], rid, key + ":init-same-slot", "init(&slots[signal], signal)", it["sp"], {"index": [show(i) for i in idx], "signal": [show(s) for s in s2]})
         # in the closure: slots[captured signal], store(.., captured signal, ..)
-        cl = [c for c in action_closures(F) if c.name == a.name + "::{closure#0}"]
+        cl = [c for c in F.inst if c.kind == "closure" and c.body is not None and c.defp == rv["def"] and
+              (rv.get("ty") is None or rv["ty"].replace("::<", "<") == ("{closure@%s}" % c.name).replace("::<", "<"))]
         if len(cl) != 1 or not sig_up:
-            raise AnchorLost("action closure of %s" % a.name)
+            raise AnchorLost("action closure of %s" % a0.name)
         from .nf import NF
         cl = NF(F, cl[0]); k = sig_up[0]; ks = set(sig_up)
         stc = store_calls(F, cl)
